@@ -252,6 +252,41 @@ where
     }
 }
 
+/// `trim` requests whose enforced-bound list contains an unsupported bound at ANY position of the list
+/// (every ordered list of length <= 2 over 0..=max+1): refused; lists within the limits: served.
+pub fn trim_requests<S: Sch>(rec: &mut Rec) {
+    let d = 3usize;
+    for sup in 1..=d {
+        let id = format!("{}/trim-requests/D={}/s={}", S::NAME, d, sup);
+        if !rec.take(&id) {
+            continue;
+        }
+        rec.dim("scheme", S::NAME);
+        let limit = if S::NAME.starts_with("SON") { sup } else { d };
+        let mut lists: Vec<Vec<usize>> = vec![vec![]];
+        for a in 0..=(d + 1) {
+            lists.push(vec![a]);
+            for b in 0..=(d + 1) {
+                lists.push(vec![a, b]);
+            }
+        }
+        for l in lists {
+            let cfg = KeyCfg::uni(d, sup, 1, Some(l.clone()));
+            let r = build_keys::<S>(&cfg, rec.seed);
+            let in_range = l.iter().all(|b| *b <= limit);
+            if in_range {
+                rec.count_points(1);
+                rec.class(if r.is_ok() { "in-domain-served" } else { "in-domain-refused" });
+                if let Err(o) = r {
+                    rec.violation(&format!("C17/{}/trim/in-domain-refused", S::NAME), &id, format!("bounds {:?} (limit {}) refused: {}", l, limit, o.short()));
+                }
+            } else {
+                refused(rec, S::NAME, "trim", "unsupported-degree-bound", &id, r.is_ok(), format!("trim served the enforced bounds {:?} although the largest servable bound is {}", l, limit));
+            }
+        }
+    }
+}
+
 /// `open` handed a polynomial larger than the committer key supports (committed under a larger key cut
 /// from the same parameters): no proof may come back, at any size between the two limits.
 pub fn oversize_open<S: Sch>(rec: &mut Rec)
@@ -691,6 +726,8 @@ pub fn run(rec: &mut Rec) {
     degree_bounds::<SMar>(rec);
     degree_bounds::<SSon>(rec);
     degree_bounds::<SIpa>(rec);
+    trim_requests::<SMar>(rec);
+    trim_requests::<SSon>(rec);
     oversize_open::<SMar>(rec);
     oversize_open::<SSon>(rec);
     oversize_open::<SIpa>(rec);
